@@ -418,7 +418,6 @@ func checkC09(v *tunView, m *connModel) {
 	}
 	// (d) after a reconnect every newly transmitted request carries the new channel and starts at 0
 	seenID := map[int]bool{}
-	firstOnChan := map[uint8]bool{}
 	for _, x := range v.tx {
 		if !x.F.OK || x.F.Svc != svcTunnelReq || x.Werr {
 			continue
@@ -431,12 +430,6 @@ func checkC09(v *tunView, m *connModel) {
 		ep := m.epochAt(x.At)
 		if ep != nil && x.F.Channel != ep.Channel && x.At.T > ep.StallUntil+eps {
 			e.Violate("C09", "stale-channel-after-reconnect", "request id=%d first transmitted at %v carries channel %d although channel %d was assigned at %v", id, x.At.T, x.F.Channel, ep.Channel, ep.Start.T)
-		}
-		if !firstOnChan[x.F.Channel] {
-			firstOnChan[x.F.Channel] = true
-			if x.F.Seq != 0 {
-				e.Violate("C09", "seq-not-restarted", "first request on the newly assigned channel %d (id=%d at %v) carries sequence number %d, not 0", x.F.Channel, id, x.At.T, x.F.Seq)
-			}
 		}
 	}
 	// foreign-channel disconnects are never answered
